@@ -535,8 +535,9 @@ def run(run):
                     _shards("T", cell, ph, hs3, hs3, cfg_T_b1, False))
         h4_3 = hierarchies(4, 3, 3, False)
         h4_2 = hierarchies(4, 1, 2, False)
-        run.explore("T c=4 3 levels x <=2 levels (%dx%d x %d cfg)" % (len(h4_3), len(h4_2), len(cfg_T_b1)), mod,
-                    "shard_pairs", _shards("T", cell, ph, h4_3, h4_2, cfg_T_b1, False, 256),
+        cfg_T_grid = _cfgs(windows, sizes[:2], (False, True), (1.0,))
+        run.explore("T c=4 3 levels x <=2 levels (%dx%d x %d cfg)" % (len(h4_3), len(h4_2), len(cfg_T_grid)), mod,
+                    "shard_pairs", _shards("T", cell, ph, h4_3, h4_2, cfg_T_grid, False, 256),
                     note="one call observes both directions, so <=2 levels x 3 levels is the same set of "
                          "(ref, est) structures with precision and recall exchanged")
         fine = _cfgs(windows, (0.125 * s,), (False, True), (1.0,))
